@@ -32,6 +32,7 @@ fn crash(casef: &str, db: &str, out: &str) -> i32 {
     opts.keep_file = true;
     opts.markers = true;
     opts.reader_dance = std::env::var("JV_READER_DANCE").ok().and_then(|v| v.parse().ok()).unwrap_or(0);
+    opts.legacy_at = std::env::var("JV_LEGACY_AT").ok().and_then(|v| v.parse().ok());
     let o = run_history(&case, &opts);
     let models: Vec<serde_json::Value> = o.commit_models.iter().map(|m| m.to_value()).collect();
     let _ = std::fs::write(out, serde_json::to_string(&models).unwrap_or_default());
